@@ -5,6 +5,8 @@ from lib import snprintfrule
 
 def run(chk):
     snprintfrule.run(chk, units=["asmjit/core/string.cpp", "asmjit/support/arena.cpp"], floor=4)
+    from lib import resizefill
+    resizefill.run(chk)
     return chk.finish(
         level="other",
         explanation=("Decides one structural clause of C18 on /repo's current source: in String::_op_vformat() and Arena::sformat() the value "
